@@ -386,6 +386,75 @@ def _end_to_end(ctx, rep):
         shutil.rmtree(base, ignore_errors=True)
 
 
+def _check_markers(ctx, rep, model_ok):
+    """which marker protects which queued file: `_marker_path_for` vs `marker.name`, and the markers a real `append_files` batch
+    writes vs `marker.register` (batches with repeated paths, equal base names in different directories, library-style names)"""
+    import hashlib
+    import pyarrow as pa
+    import pyarrow.parquet as pq
+    from datashard.data_structures import DataFile, FileFormat
+    if not model_ok:
+        return
+    base = scratch_dir("c05m-")
+    try:
+        t = tablekit.create(os.path.join(base, "t"))
+        root = os.path.join(base, "t")
+        sch = t.file_manager.data_file_manager.create_arrow_schema(tablekit.schema())
+        pool = ["data/a.parquet", "/data/a.parquet", "data/region=eu/part-0.parquet", "data/region=us/part-0.parquet", "/data/region=eu/part-0.parquet",
+                "data/x/y/z.parquet", "data/x/z.parquet", "data/z.parquet", "metadata/manifests/m.avro", "data//dd.parquet", "data/sub/a.parquet"]
+        dig = lambda p_: hashlib.sha256(p_.lstrip("/").encode()).hexdigest()[:16]
+        tx0 = t.new_transaction().begin()
+        fn = getattr(tx0, "_marker_path_for", None)
+        if fn is not None:
+            reqs = [f"marker.name {enc(p_)} {enc(dig(p_))}" for p_ in pool]
+            for p_, m_ in zip(pool, driver.ask(reqs)):
+                rep.corr_cases += 1
+                impl = fn(p_)
+                want = "metadata/inflight/" + dec(m_) + ".inflight"
+                if impl != want:
+                    rep.diverge("marker.name (Transaction._marker_path_for)", {"path": p_}, want, impl)
+        tx0.rollback()
+        rng = ctx.rng("markers")
+        for p_ in pool:
+            full = os.path.join(root, p_.lstrip("/"))
+            os.makedirs(os.path.dirname(full), exist_ok=True)
+            if not os.path.exists(full):
+                pq.write_table(pa.table({"id": [1], "name": ["m"]}, schema=sch), full)
+        files = [p_ for p_ in pool if p_.endswith(".parquet")]
+        for _ in range(ctx.budget(12, 120)):
+            batch = [rng.choice(files) for _ in range(rng.randint(1, 5))]
+            tx = t.new_transaction().begin()
+            written = []
+            st = t.storage
+            ow = st.write_file
+
+            def wf(pp, data, *a_, _o=ow, **k_):
+                if str(pp).lstrip("/").startswith("metadata/inflight/"):
+                    import json as _json
+                    written.append(_json.loads(data)["file_path"])
+                return _o(pp, data, *a_, **k_)
+            st.write_file = wf
+            try:
+                tx.append_files([DataFile(file_path=p_, file_format=FileFormat.PARQUET, partition_values={}, record_count=1,
+                                          file_size_in_bytes=os.path.getsize(os.path.join(root, p_.lstrip("/")))) for p_ in batch])
+            finally:
+                del st.write_file
+                tx.rollback()
+            m_ = driver.ask(["marker.register " + " ".join(f"{enc(p_)}:{enc(dig(p_))}" for p_ in batch)])[0]
+            want = [dec(x_).lstrip("/") for x_ in m_.split(",") if x_]
+            rep.corr_cases += 1
+            if want != written:
+                rep.diverge("marker.register (append_files: which queued files get a marker of their own)", {"batch": batch}, want, written)
+            # oracle: every queued path is named by the payload of some marker this transaction wrote
+            rep.evaluations += 1
+            uncovered = sorted({b_.lstrip("/") for b_ in batch} - set(written))
+            if uncovered:
+                rep.violate("C05:gc-deleted-live-file", f"append_files({batch}): no in-flight marker names {uncovered} (markers written for {written})",
+                            {"kind": "marker-coverage", "batch": batch})
+    finally:
+        shutil.rmtree(base, ignore_errors=True)
+
+
 def run(ctx, model_ok):
     rep = Report()
     rep.rule = ("normalisation: 20 table-location spellings × 36 path forms + location-prefixed forms; delete decision: random listings / "
@@ -395,5 +464,6 @@ def run(ctx, model_ok):
                 "non-trivial = a collection that deletes something; distinct by (location, trace).")
     _check_norm(ctx, rep, model_ok)
     _check_prefix(ctx, rep, model_ok)
+    _check_markers(ctx, rep, model_ok)
     _end_to_end(ctx, rep)
     return rep
